@@ -1,4 +1,5 @@
 import IwModel.Lemmas.JsonMerge
+import IwModel.Lemmas.BinnPatch
 /-! # C16 — JSON Merge Patch gives the RFC 7386 result
 
 `Merge.*` is the model of `src/json/iwjson.c` (`_jbl_merge_patch_node` and its entry points, tied to the code by
@@ -83,5 +84,105 @@ example : ∃ rms, mergeNode (some (.obj [([97], .int 1), ([97, 98], .int 2)])) 
   obtain ⟨rms, h1, _, h3⟩ := merge_members (.obj [([97], .int 1), ([97, 98], .int 2)]) [([97], .null), ([98], .int 3)]
     (by simp [Rfc.keysNodup]) (by simp [Rfc.keysNodup, Rfc.objectOrEmpty])
   exact ⟨rms, h1, by rw [h3]; rfl, by rw [h3]; rfl, by rw [h3]; rfl⟩
+
+/-! ## The binary entry points on the binn BYTES: decode – merge – encode – swap
+
+`BinnPatch.mergeHolder` / `mergeHolderJbl` are `jbl_merge_patch` / `jbl_merge_patch_jbl` as literal compositions of the
+C14 reader (`_jbl_node_from_binn`), `jbn_merge_patch_from_json` and the C14 writer (`_jbl_binn_from_node`), on holders
+`Binn.BVal` (`.cont bytes`).  `Holds h v`: the bytes of `h` decode to `v`, and `v` satisfies the decidable `Binn.wf` of
+the C14 round-trip theorems.  Hypotheses: the patch is `leafOk` (integers are int64, strings/keys NUL free: what C's
+types give anyway), the result is `small` (< 2^31 − 9 bytes).  "Keys ≤ 255 bytes, unique ignoring ASCII case" is the
+case split `wf`, not a hypothesis. -/
+section Bytes
+open IwModel.Binn IwModel.BinnPatch
+
+/-- **(b) a failed call leaves the bytes as they were**, for every holder and every patch (document or holder) -/
+theorem jbl_merge_bytes_atomic (h ph : BVal) (patch : JVal) :
+    ((mergeHolder h patch).2 ≠ .ok → (mergeHolder h patch).1 = h) ∧
+    ((mergeHolderJbl h ph).2 ≠ .ok → (mergeHolderJbl h ph).1 = h) :=
+  ⟨mergeHolder_atomic h patch, mergeHolderJbl_atomic h ph⟩
+
+/-- `MergePatch` of `leafOk` documents is `leafOk` -/
+theorem merge_result_leafOk (target patch : JVal) (ht : leafOk target = true) (hp : leafOk patch = true) :
+    leafOk (Rfc.mergePatch target patch) = true := mergePatch_leafOk patch target ht hp
+
+/-- **(a) + (c) `jbl_merge_patch` on the bytes**, for every holder `h` of a well-formed document `v` and every `leafOk`
+    patch document: when the binary form can hold `MergePatch(v, patch)` the call succeeds, the new bytes are the writer's
+    encoding of it, they decode to exactly `MergePatch(decode(old bytes), patch)` and are well-formed again; when it
+    cannot (key > 255 bytes, keys equal ignoring case) the call reports `JBL_ERROR_CREATION` and the bytes are unchanged. -/
+theorem jbl_merge_bytes (h : BVal) (v patch : JVal) (hh : Holds h v) (hp : leafOk patch = true) :
+    (wf (Rfc.mergePatch v patch) = true → small (Rfc.mergePatch v patch) →
+      mergeHolder h patch = (viewOf (Rfc.mergePatch v patch), .ok) ∧
+      Holds (viewOf (Rfc.mergePatch v patch)) (Rfc.mergePatch v patch)) ∧
+    (wf (Rfc.mergePatch v patch) = false → mergeHolder h patch = (h, .creation)) := by
+  rw [mergeHolder_eq h v patch hh.1]
+  constructor
+  · intro hw hs
+    exact ⟨swapIn_wf h _ hw, holds_view _ hw hs⟩
+  · intro hw
+    exact swapIn_not_wf h _ (mergePatch_leafOk patch v (leafOk_of_wf v hh.2) hp) hw
+
+/-- `jbl_merge_patch_jbl`: with a patch holder of a well-formed document `p` it is `jbl_merge_patch` with `p`
+    (so `jbl_merge_bytes` applies with `leafOk p` from `wf p`) -/
+theorem jbl_merge_jbl_bytes (h ph : BVal) (p : JVal) (hp : Holds ph p) :
+    mergeHolderJbl h ph = mergeHolder h p ∧ leafOk p = true := by
+  refine ⟨?_, leafOk_of_wf p hp.2⟩
+  simp only [mergeHolderJbl, hp.1]
+
+/-- **Iteration over a list of patch documents** merged into the same holder one after the other: with `MergeSeqOk`
+    (every patch is `leafOk`, every intermediate result `small`) the final bytes decode to the fold of RFC 7386 over the
+    list (`mergeSpecSeq`: a result the binary form cannot hold is skipped), are well-formed, and the calls that report
+    success are exactly those whose result can be held. -/
+theorem jbl_merge_bytes_seq (ps : List JVal) : ∀ (h : BVal) (v : JVal), Holds h v → MergeSeqOk v ps →
+    Holds (mergeSeq h ps).1 (mergeSpecSeq v ps) ∧ (mergeSeq h ps).2.map (· == .ok) = mergeSeqAcc v ps := by
+  induction ps with
+  | nil => intro h v hh _; exact ⟨hh, rfl⟩
+  | cons p r ih =>
+    intro h v hh hs
+    obtain ⟨hl, hsm, hrest⟩ := hs
+    obtain ⟨a1, a2⟩ := jbl_merge_bytes h v p hh hl
+    simp only [mergeSeq, mergeSpecSeq, mergeSeqAcc]
+    by_cases hw : wf (Rfc.mergePatch v p) = true
+    · obtain ⟨e, hh'⟩ := a1 hw hsm
+      simp only [hw, ↓reduceIte] at hrest ⊢
+      rw [e]
+      obtain ⟨i1, i2⟩ := ih _ _ hh' hrest
+      exact ⟨i1, by simp only [List.map_cons, i2]; rfl⟩
+    · simp only [Bool.not_eq_true] at hw
+      simp only [hw, Bool.false_eq_true, ↓reduceIte] at hrest ⊢
+      rw [a2 hw]
+      obtain ⟨i1, i2⟩ := ih h v hh hrest
+      exact ⟨i1, by simp only [List.map_cons, i2]; rfl⟩
+
+/-- the hypotheses are satisfiable: `{"a":-5,"b":["hi",null]}` in its binary form merged with `{"a":null,"c":{"d":null,"e":1}}`
+    gives bytes that decode to `{"b":["hi",null],"c":{"e":1}}` -/
+example : ∃ h', mergeHolder (.cont [226, 18, 2, 1, 97, 33, 251, 1, 98, 224, 9, 2, 160, 2, 104, 105, 0, 0])
+      (.obj [([97], .null), ([99], .obj [([100], .null), ([101], .int 1)])]) = (h', .ok) ∧
+    Holds h' (.obj [([98], .arr [.str [104, 105], .null]), ([99], .obj [([101], .int 1)])]) := by
+  have hh : Holds (.cont [226, 18, 2, 1, 97, 33, 251, 1, 98, 224, 9, 2, 160, 2, 104, 105, 0, 0])
+      (.obj [([97], .int (-5)), ([98], .arr [.str [104, 105], .null])]) := ⟨by rfl, by decide⟩
+  have hm : Rfc.mergePatch (.obj [([97], .int (-5)), ([98], .arr [.str [104, 105], .null])])
+      (.obj [([97], .null), ([99], .obj [([100], .null), ([101], .int 1)])]) =
+      .obj [([98], .arr [.str [104, 105], .null]), ([99], .obj [([101], .int 1)])] := by
+    simp [rfc_obj, rfc_nonobj, rstep, Rfc.isNull, Rfc.remove, Rfc.put, Rfc.get, Rfc.objectOrEmpty, List.lookup]
+  have h1 := (jbl_merge_bytes _ _ (.obj [([97], .null), ([99], .obj [([100], .null), ([101], .int 1)])]) hh (by decide)).1
+  rw [hm] at h1
+  obtain ⟨e, hh'⟩ := h1 (by decide) (small_of_enc _ [226, 23, 2, 1, 98, 224, 9, 2, 160, 2, 104, 105, 0, 0, 1, 99, 226, 7, 1, 1, 101, 32, 1]
+    (by decide) (by decide))
+  exact ⟨_, e, hh'⟩
+
+/-- … and a refused result: merging `{"A":1}` into a document that has the member `a` -/
+example : mergeHolder (.cont [226, 18, 2, 1, 97, 33, 251, 1, 98, 224, 9, 2, 160, 2, 104, 105, 0, 0]) (.obj [([65], .int 1)]) =
+    (.cont [226, 18, 2, 1, 97, 33, 251, 1, 98, 224, 9, 2, 160, 2, 104, 105, 0, 0], .creation) := by
+  have hh : Holds (.cont [226, 18, 2, 1, 97, 33, 251, 1, 98, 224, 9, 2, 160, 2, 104, 105, 0, 0])
+      (.obj [([97], .int (-5)), ([98], .arr [.str [104, 105], .null])]) := ⟨by rfl, by decide⟩
+  have hm : Rfc.mergePatch (.obj [([97], .int (-5)), ([98], .arr [.str [104, 105], .null])]) (.obj [([65], .int 1)]) =
+      .obj [([97], .int (-5)), ([98], .arr [.str [104, 105], .null]), ([65], .int 1)] := by
+    simp [rfc_obj, rfc_nonobj, rstep, Rfc.isNull, Rfc.put, Rfc.get, Rfc.objectOrEmpty, List.lookup]
+  have h2 := (jbl_merge_bytes _ _ (.obj [([65], .int 1)]) hh (by decide)).2
+  rw [hm] at h2
+  exact h2 (by decide)
+
+end Bytes
 
 end IwModel.C16
